@@ -352,6 +352,8 @@ def run_sim(ctx, replay_cases):
         problems = check_sim(case["params"], out)
         if not out["aborted"] or not problems:
             problems = problems + tc.check_c01(case["params"], out)
+            if case["scheduler"] != "scripted":   # the scripted scheduler is an arbitrary oracle, real ones must be disciplined
+                problems = problems + tc.check_discipline(out, case["scheduler"])
         if out["aborted"] and not problems:
             ctx.notes.append("a simulator run exceeded the hard iteration limit without a finding and was dropped")
         for what, sig in problems:
